@@ -3,7 +3,7 @@ import os
 
 from . import build, configs, engine
 from .build import Job
-from .engine import Result, finish, log, quick_configs, run_jobs, thorough_configs
+from .engine import BUILD_DIM_CFGS, Result, build_dimension, finish, log, quick_configs, run_jobs, thorough_configs
 
 SAN_QUICK = ['none', 'SSE2', 'AVX2', 'ALL']
 CLANG_QUICK = ['none', 'SSE2', 'ALL']
@@ -45,12 +45,44 @@ def plan_value(prop, srcs, tier, parts=(1, 2, 3, 4), san=True, landmarks=configs
                 if configs.name(c) in ev_names:
                     for p in sparts:
                         jobs.append(Job(src, c, 'g++', 11, ev_variant, p, extra=extra, libs=libs, incdirs=incdirs))
+    # ---- build dimension: compiler / language level / optimisation level ----
+    have = {(j.src, j.cfg, j.compiler, j.std, j.variant, j.part) for j in jobs}
+
+    def add(src, c, comp, std, variant, p):
+        k = (src, frozenset(c), comp, std, variant, p)
+        if k not in have:
+            have.add(k)
+            jobs.append(Job(src, c, comp, std, variant, p, extra=extra, libs=libs, incdirs=incdirs))
+    planned = sorted({(j.cfg, j.compiler, j.std) for j in jobs if j.variant == plain_variant}, key=lambda t: (configs.name(t[0]), t[1], t[2]))
+    extra_builds, bd = build_dimension(prop, cfgs, planned)
+    names = {configs.name(c): c for c in cfgs}
+    lm = [n for n in BUILD_DIM_CFGS if n in names] or [configs.name(c) for c in cfgs[:3]]
+    # unoptimised (debug) and -O3 builds of the landmark configurations: _mm_undefined_*, odr-uses, evaluation order and
+    # everything else the optimiser normally hides or exposes
+    if tier == 'quick':
+        opt_plan = [('g++', 14, 'o0', [n for n in lm if n != 'none'] or lm), ('clang++', 17, 'o0', [n for n in lm if n == 'AVX2'] or lm[:1]),
+                    ('g++', 20, 'o3', [n for n in lm if n == 'ALL'] or lm[-1:])]
+    else:
+        opt_plan = [('g++', 14, 'o0', lm), ('clang++', 17, 'o0', lm), ('g++', 20, 'o3', lm), ('clang++', 11, 'o3', lm)]
+    for src, sparts in srcs:
+        for c, comp, std in extra_builds:
+            for p in sparts:
+                add(src, c, comp, std, plain_variant, p)
+        for comp, std, variant, ns in opt_plan:
+            for n in ns:
+                for p in sparts:
+                    add(src, names[n], comp, std, variant, p)
+    bd['optimisation_level_builds'] = ['%s/%s-c++%d/%s' % (n, comp, std, variant) for comp, std, variant, ns in opt_plan for n in ns]
+    lad = dict(lad)
+    lad['build_dimension'] = bd
     # biggest jobs first (wide configs compile longest)
     jobs.sort(key=lambda j: -len(configs.closure(j.cfg)) - (8 if j.variant == 'san' else 0))
     return jobs, cfgs, lad
 
 
 def ladder_extra(res, lad, cfgs):
+    if 'build_dimension' in lad:
+        res.extra['build_dimension'] = lad['build_dimension']
     sel = set()
     for c in cfgs:
         sel |= lad['per_cfg'].get(configs.name(c), set())
